@@ -308,6 +308,13 @@ pub fn replay(case: &Value) -> Result<Acc, String> {
         }
         return Ok(acc);
     }
+    if case["kind"] == "pair-seq" {
+        let ps = pair_seq_texts();
+        let i = case["index"].as_u64().unwrap_or(0);
+        let (text, want) = ps.get(i as usize).ok_or("index out of range")?;
+        eval_pair_seq(text, want, i, &mut acc);
+        return Ok(acc);
+    }
     if case["kind"] == "suite" {
         eval_suite_case(case["name"].as_str().unwrap_or(""), case["text"].as_str().unwrap_or(""), case["tree"].as_str().unwrap_or(""), &mut acc);
         return Ok(acc);
@@ -373,6 +380,71 @@ pub fn spine_trees(dmin: usize, dmax: usize) -> Vec<T> {
 }
 
 /// (text, the scalar values it must deliver in order)
+/// Flow sequences whose entries are single pairs: 1..3 entries, every entry in every spelling
+/// (braces or brace-less, implicit or explicit `?`, empty key or empty value), three separators, three
+/// contexts. The expected value is the event sentence in a short notation (`=~` is an omitted node).
+pub fn pair_seq_texts() -> Vec<(String, String)> {
+    // (spelling, key, value)
+    let mut forms: Vec<(String, &str, &str)> = vec![];
+    for (k, v) in [("a", "b"), ("", "b"), ("a", "")] {
+        let kd = if k.is_empty() { "~" } else { k };
+        let vd = if v.is_empty() { "~" } else { v };
+        let imp = match (k.is_empty(), v.is_empty()) { (true, _) => format!(": {v}"), (_, true) => format!("{k}: "), _ => format!("{k}: {v}") };
+        let mut exp = vec![match (k.is_empty(), v.is_empty()) { (true, _) => format!("? : {v}"), (_, true) => format!("? {k} : "), _ => format!("? {k} : {v}") }];
+        if v.is_empty() {
+            exp.push(format!("? {k}"));
+        }
+        forms.push((format!("{{{imp}}}"), kd, vd));
+        forms.push((imp.clone(), kd, vd));
+        for e in exp {
+            forms.push((format!("{{{e}}}"), kd, vd));
+            forms.push((e, kd, vd));
+        }
+    }
+    let mut out = vec![];
+    let nf = forms.len();
+    for len in 1..=3usize {
+        for code in 0..nf.pow(len as u32) {
+            let mut c = code;
+            let mut items = vec![];
+            let mut want = String::from("+S");
+            for _ in 0..len {
+                let f = &forms[c % nf];
+                c /= nf;
+                items.push(f.0.clone());
+                want.push_str(&format!(" +M ={} ={} -M", f.1, f.2));
+            }
+            want.push_str(" -S");
+            for (sep, pad) in [(", ", " "), (" , ", ""), (",\n  ", " ")] {
+                let body = items.join(sep);
+                let body = body.trim_end();
+                let seq = format!("[{pad}{body}{pad}]");
+                out.push((format!("{seq}\n"), want.clone()));
+                out.push((format!("- {seq}\n"), format!("+S {want} -S")));
+                out.push((format!("{{x: {seq}, y: z}}\n"), format!("+M =x {want} =y =z -M")));
+            }
+        }
+    }
+    out
+}
+fn eval_pair_seq(text: &str, want: &str, index: u64, acc: &mut Acc) {
+    acc.evals += 1;
+    for bk in [Backend::Str, Backend::Buf] {
+        let got: Result<String, String> = match observe(text, bk, Api::Iter) {
+            Err(m) => Err(format!("panic: {m}")),
+            Ok(o) => match &o.err {
+                Some(e) => Err(e.info.clone()),
+                None => Ok(o.evs.iter().filter_map(|e| match &e.0 { Ev::Sc(v, ..) => Some(format!("={v}")), Ev::SeqS(..) => Some("+S".into()), Ev::SeqE => Some("-S".into()), Ev::MapS(..) => Some("+M".into()), Ev::MapE => Some("-M".into()), Ev::Al(_) => Some("*".into()), _ => None }).collect::<Vec<_>>().join(" ")),
+            },
+        };
+        if got.as_deref().ok() != Some(want) {
+            let what = if got.is_err() { "rejected" } else { "events-differ" };
+            acc.violation(Violation { key: format!("pair-sequence {what}"), expected: want.to_string(), observed: format!("backend={} {}", bk.name(), match &got { Ok(v) => v.clone(), Err(e) => e.clone() }), case: json!({"kind": "pair-seq", "index": index, "text": text}), size: text.len() });
+            break;
+        }
+    }
+    acc.class(h64(text));
+}
 pub fn long_key_texts() -> Vec<(String, Vec<String>)> {
     let mut v = vec![];
     let s = |x: &str| x.to_string();
@@ -506,6 +578,16 @@ pub fn check(tier: Tier) -> i32 {
     let n = acc.evals;
     rep.acc.merge(acc);
     rep.scope(&format!("implicit keys of 1 .. 1024 characters (block, nested, quoted) and longer keys in flow / explicit form ({} texts)", lk.len()), n, done == lk.len() as u64);
+    // flow sequences of single pairs, every spelling of every entry (more simultaneous deviations than the
+    // budgeted exploration reaches: `[ ? a : b, : d ]` needs four on a seven-node tree)
+    let ps = pair_seq_texts();
+    let (acc, done) = par_blocks(ps.len() as u64, &budget, |b, acc| {
+        let (text, want) = &ps[b as usize];
+        eval_pair_seq(text, want, b, acc);
+    });
+    let n = acc.evals;
+    rep.acc.merge(acc);
+    rep.scope(&format!("flow sequences of 1..3 single-pair entries, each braced or brace-less, implicit or explicit, with an empty key or value, 3 separators x 3 contexts ({} texts)", ps.len()), n, done == ps.len() as u64);
     // deep nesting chains ("spines"): block levels outside, flow levels inside
     let (dmin, dmax) = if tier == Tier::Quick { (7usize, 11usize) } else { (7, 15) };
     let strees = spine_trees(dmin, dmax);
